@@ -1,9 +1,10 @@
 use std::{
     hash::{Hash, Hasher},
     mem,
-    sync::RwLock,
     task::{Context, Poll, Waker},
 };
+
+use crate::sync_impl::RwLock;
 
 #[derive(Debug)]
 pub struct ObservableState<T> {
